@@ -143,6 +143,9 @@ func labelName(i int64) string {
 	if i%4 == 1 {
 		return fmt.Sprintf("l%%d_100%%_%02d", i) // a name with format verbs in it
 	}
+	if i%4 == 2 {
+		return fmt.Sprintf("lbl_%02d:", i) // a name that ends in a colon (a different name from the one without)
+	}
 	return fmt.Sprintf("lbl_%02d", i)
 }
 
